@@ -51,6 +51,8 @@ pub enum AddShredError {
     Equivocation,
     #[error("shred was invalid and leader did not equivocate")]
     InvalidShred,
+    #[error("shred type (data/coding) does not match its index")]
+    TypeMismatch,
 }
 
 /// Holds all data corresponding to any blocks for a single slot.
@@ -204,6 +206,15 @@ impl BlockData {
         shred: ValidatedShred,
         shredder: &mut RegularShredder,
     ) -> Result<Option<BlockstoreEvent>, AddShredError> {
+        // NOTE: The data/coding type is not covered by the leader's signature (only the index is).
+        // A shred where the two disagree was altered in transit, so it is dropped here.
+        // Otherwise, it would make reconstruction of the slice fail later on,
+        // and the leader would be blamed for it.
+        let is_data_index = *shred.payload().shred_index < RegularShredder::DATA_OUTPUT_SHREDS;
+        if shred.is_data() != is_data_index {
+            return Err(AddShredError::TypeMismatch);
+        }
+
         let header = &shred.payload().header;
         debug_assert_eq!(header.slot, self.slot);
         let slice_index = header.slice_index;
